@@ -234,7 +234,7 @@ fn check_heap(tier: &str, seed: u64, backend: Option<&str>) -> Vec<Summary> {
 }
 
 fn check_linearize(tier: &str, seed: u64) -> Vec<Summary> {
-    let n: u64 = if tier == "thorough" { 60_000 } else { 6_000 };
+    let n: u64 = if tier == "thorough" { 3_000_000 } else { 60_000 };
     let cases: Vec<(u64, usize)> = (0..n).map(|k| (seed.wrapping_mul(1_000_003).wrapping_add(k * 2 + 1), 2 + (k % 4) as usize)).collect();
     let nontriv = Arc::new(AtomicU64::new(0));
     let nt = nontriv.clone();
@@ -256,7 +256,7 @@ fn check_linearize(tier: &str, seed: u64) -> Vec<Summary> {
 
 fn check_programs(tier: &str, seed: u64, backend: Option<&str>) -> Vec<Summary> {
     let mut out = vec![];
-    let n: u64 = if tier == "thorough" { 40_000 } else { 4_000 };
+    let n: u64 = if tier == "thorough" { 400_000 } else { 12_000 };
     macro_rules! one {
         ($B:ty, $M:ty, $name:expr, $maxenv:expr, $tgt:expr) => {{
             if backend.map(|b| b == $name).unwrap_or(true) {
